@@ -108,8 +108,8 @@ def validate(ctx, name, doc):
 def run(ctx):
     thorough = ctx.tier == 'thorough'
     tlc.sany(SPEC)
-    names = ['G2', 'G2ul', 'Gpart', 'Gpartul', 'Gneg', 'Grect', 'G15', 'Gcust', 'Gunal', 'Gunalul', 'G1'] if thorough else \
-            ['G2', 'G2ul', 'Gpartul', 'Gneg', 'Grect', 'Gunal', 'G1']
+    names = ['G2', 'G2ul', 'Gpart', 'Gpartul', 'Gneg', 'Grect', 'Grectul', 'G15', 'Gcust', 'Gunal', 'Gunalul', 'G1'] if thorough else \
+            ['G2', 'G2ul', 'Gpartul', 'Gneg', 'Grect', 'Grectul', 'Gunal', 'G1']
     for name in names:
         g = L.spec_grid(name)
         bx0, by0, bx1, by1 = g['bbox']
